@@ -553,14 +553,25 @@ package netceptor
 // of them can block waits (among others) on a channel that the end of the object closes: the context of the
 // socket or ping, or the subscription channel that the broker closes on unsubscribe / cancellation.
 
+//@ iface NetcForPacketConn.GetUnreachableBroker
+//@   params s
+//@   pure
+//@   ensures NONNIL: result != nil
+//@ iface NetcForPacketConn.NodeID
+//@   params s
+//@   pure
+// the brokers are created by StartUnreachable before any of these goroutines is started
 //@ func (*PacketConn).StartUnreachable$1
 //@   tags C17
+//@   requires pc != nil && pc.s != nil
 //@   site block * EXITS: [C17] requires waits(ctxdone(pc.context))
 //@ func (*PacketConn).StartUnreachable$2
 //@   tags C17
+//@   requires pc != nil && pc.s != nil && pc.unreachableSubs != nil
 //@   site block * EXITS: [C17] requires waits(iChan)
 //@ func (*PacketConn).SubscribeUnreachable$1
 //@   tags C17
+//@   requires pc != nil && pc.unreachableSubs != nil
 //@   site block * EXITS: [C17] requires waits(ctxdone(pc.context))
 //@ func SendPing$2
 //@   tags C17
